@@ -150,7 +150,12 @@ fn judge(ctx: &Ctx, env: &Env, ops: &[Op], order: &[usize], reference: Option<&R
                 Ok(got) => if let Some(d) = masked_eq(&got, want, un) { ctx.violation("result_differs_from_precedence_model", key, case, d); },
             }
         }
-        (Ok(Res::Ok(_)), Outcome::Rejected(why)) => ctx.violation("invalid_operation_accepted", key, case, format!("model rejects ({why}) but zerv printed a result")),
+        (Ok(Res::Ok(out)), Outcome::Rejected(why)) => {
+            // a value beyond the model's 32-bit range is a representation limit, not an invalid target: an implementation
+            // with wider numbers may apply it - but then exactly (the value must stand in the resulting object)
+            let wide_value_applied_exactly = why.contains("out of range") && argv.iter().filter_map(|a| a.rsplit('=').next()).filter(|v| v.len() >= 10 && v.bytes().all(|b| b.is_ascii_digit())).all(|v| out.contains(v));
+            if wide_value_applied_exactly { st.inc("wide_value_applied_exactly"); } else { ctx.violation("invalid_operation_accepted", key, case, format!("model rejects ({why}) but zerv printed a result")); }
+        }
         (Ok(_), Outcome::Ok(..)) => ctx.violation("valid_operation_rejected", key, case, format!("zerv: {:?}", r.as_ref().ok())),
         (Ok(_), Outcome::Rejected(_)) => { st.inc("model_rejected"); }
     }
